@@ -91,6 +91,9 @@ func NewFastHTTPHandler(h http.Handler) fasthttp.RequestHandler {
 			ctx.SetStatusCode(w.status())
 			haveContentType := false
 			for k, vv := range w.responseHeader() {
+				if suppressedHeader(w.status(), k) {
+					continue
+				}
 				if k == fasthttp.HeaderContentType {
 					haveContentType = true
 				}
@@ -121,7 +124,7 @@ func NewFastHTTPHandler(h http.Handler) fasthttp.RequestHandler {
 			haveContentType := false
 			for k, vv := range w.responseHeader() {
 				// No Content-Length when streaming.
-				if k == fasthttp.HeaderContentLength {
+				if k == fasthttp.HeaderContentLength || suppressedHeader(w.status(), k) {
 					continue
 				}
 				if k == fasthttp.HeaderContentType {
@@ -181,6 +184,16 @@ func NewFastHTTPHandler(h http.Handler) fasthttp.RequestHandler {
 			panic("net/http handler panicked")
 		}
 	}
+}
+
+// suppressedHeader reports whether net/http drops the handler-set header k
+// from a response with the given status code: a 304 response carries
+// no Content-Type, Content-Length and Transfer-Encoding.
+func suppressedHeader(statusCode int, k string) bool {
+	if statusCode != http.StatusNotModified {
+		return false
+	}
+	return k == fasthttp.HeaderContentType || k == fasthttp.HeaderContentLength || k == fasthttp.HeaderTransferEncoding
 }
 
 var bufferPool = sync.Pool{
